@@ -3,7 +3,7 @@
    Proofs/RedisKeysTable.v (table-dependent, re-proved each run). *)
 From Coq Require Import String List NArith Bool.
 From Cfg Require Import Model.Crc16 Model.Partition Model.RedisKeys Proofs.Crc16 Proofs.RedisKeys
-                        Gen.CrcTab Gen.Precomputed Proofs.RedisKeysTable.
+                        Gen.CrcTab Gen.Precomputed Proofs.RedisKeysTable Harness.C34 Proofs.RedisKeysCall.
 Import ListNotations.
 Open Scope N_scope.
 
@@ -44,6 +44,20 @@ Theorem C34_same_tag_same_slot :
   forall k1 k2, hash_tag k1 = hash_tag k2 -> redis_slot_spec k1 = redis_slot_spec k2.
 Proof. exact same_tag_same_slot. Qed.
 Print Assumptions C34_same_tag_same_slot.
+
+(* script-call level: ANY call whose KEYS are drawn from the component's key
+   universe (incl. the ":nil:" placeholder for unused KEYS; this is what the
+   correspondence checks on every captured EVALSHA) has all its keys and its
+   PUB/SUB channel in one slot *)
+Theorem C34_call_same_slot_partial :
+  forall cf comp tag ch ik keys k1 k2,
+    c_cluster cf = true -> comp_safe cf comp tag ch = true ->
+    (forall k, In k keys -> In k (universe cf comp tag ch ik)) ->
+    In k1 (keys ++ (if comp =? 1 then [] else [model_chan cf comp tag ch])) ->
+    In k2 (keys ++ (if comp =? 1 then [] else [model_chan cf comp tag ch])) ->
+    redis_slot_spec k1 = redis_slot_spec k2.
+Proof. exact call_same_slot. Qed.
+Print Assumptions C34_call_same_slot_partial.
 
 (* the tags the brokers can use are usable: decimal indexes (all of them) and
    every bundled precomputed tag (finite: the table generated this run) *)
